@@ -9,6 +9,7 @@
  * array for short messages.                                                                       */
 #include "algs.h"
 #include "ref_aead.h"
+#include "tdirect.h"
 
 enum { I_GCM, I_GCM_VARIV, I_GMAC, I_CHAPOLY, I_GCM_SGLJOB, I_CHAPOLY_SGLJOB };
 typedef struct {
@@ -19,6 +20,7 @@ static cfg_t CFG[64];
 static int NCFG;
 
 static IMB_MGR *m;
+static int c18_only;
 static keyset_t *KS;
 static int g_v, thorough;
 static const cfg_t *C;
@@ -54,6 +56,8 @@ static void
 viol(const char *site, const char *detail, uint32_t p, uint32_t s, const char *path)
 {
         char sig[200];
+        if (c18_only)
+                return;
         snprintf(sig, sizeof sig, "C10|%s|%s|%s", site, C->name, VARIANTS[g_v].name);
         if (!rec_sig_ok(sig, 4))
                 return;
@@ -503,9 +507,10 @@ addcfg(int iface, int klen, int dir, const char *n)
 }
 
 int
-main(void)
+main(int argc, char **argv)
 {
-        rec_init("C10", getenv("VERIF_TIER") ? getenv("VERIF_TIER") : "quick");
+        c18_only = argc > 1 && !strcmp(argv[1], "C18"); /* same exploration, only calling-convention records kept */
+        rec_init(c18_only ? "C18" : "C10", getenv("VERIF_TIER") ? getenv("VERIF_TIER") : "quick");
         thorough = tier_thorough();
         L = thorough ? 4300 : 2400;
         max_states = thorough ? 4000000 : 600000;
